@@ -4,7 +4,7 @@ func init() {
 	register("C10", &propInfo{
 		Explanation: "KEEP: both decimation criteria return 'removable' only behind the keep-filter (absent, or answered true). GUARDCALL: the vertex removal routine is only reached behind canRemoveVertex. OL: every exported Decimator option is read. SELFKEY: no lookup of a range key in the map being ranged over (the ARAP operator must compare the new constraint set with the cached one). FILL: in the mesh processing files (mesh_ops.go, smooth.go, subdivision.go, deformation.go, decimate.go; 2D and 3D) an output slice made with its final length and filled by index receives an element on every path of every iteration (a skipped store leaves a vertex at the origin).",
 		Trusted:     []string{"go/ssa dominators, edge-deletion reachability", "natural-loop detection of checker/dec_index.go"},
-		Fixtures:    []string{"f", "g"},
+		Fixtures:    []string{"f", "g", "w"},
 		Run: func(c *Ctx) {
 			c.runKeepFilter("KEEP", "model3d", "decCriterion", "canRemoveVertex", "FilterFunc")
 			c.floor("KEEP", 2)
@@ -25,6 +25,8 @@ func init() {
 			// divideSegment reverses its result in place
 			c.runMirrorSwap("MIRRORSWAP", append(c.libPkgs()[:2:2], c.fixturePkg("g")), c.fileFilter("mesh_ops.go", "smooth.go", "subdivision.go", "deformation.go", "decimate.go", "ptr_mesh.go"))
 			c.floor("MIRRORSWAP", 0)
+			c.runPureCall("PURECALL", newEffEngine(c), append(c.libPkgs()[:2:2], c.fixturePkg("w")), c.fileFilter("mesh_ops.go", "smooth.go", "subdivision.go", "deformation.go", "decimate.go", "ptr_mesh.go"))
+			c.floor("PURECALL", 0)
 		},
 		SelfTest: []Mutation{
 			{Name: "edge points of a reversed segment are swapped back again", File: "model3d/subdivision.go",
